@@ -224,6 +224,7 @@ struct Ctl<'a> {
     ref_seq: Vec<(u32, u32)>,
     variant: usize,
     steps_while_running: u64,
+    resume_points: Option<u64>,
     parks_seen: u64,
     resumes_while_parked: u64,
     step_checks: u64,
@@ -365,6 +366,8 @@ impl Ctl<'_> {
         let _ = self.control.apply_action(action);
         if resume && parked_before {
             self.resumes_while_parked += 1;
+            // a parked thread passes no scheduling point; waking up re-acquires the mutex, which is one
+            self.resume_points = Some(points_before);
             if self.parked() {
                 self.problem("resume-lost", format!("{a} was issued while the cycle thread was stopped, but it stayed blocked"));
             }
@@ -396,7 +399,15 @@ impl Ctl<'_> {
             // a step addressed to a task that is not executing right now starts from wherever
             // that task last was, which the controller cannot observe: no expectation then
             let addressed_elsewhere = target_thread.is_some() && target_thread != self.control.current_thread();
-            if let (Some(k), true) = (kind, !addressed_elsewhere && self.sched.points_of(self.ct) == points_before && !self.done()) {
+            // ... and only when the cycle thread has not passed a single scheduling point since it
+            // was resumed from a stop (continue immediately followed by a step): then it still sits
+            // in the hook it was parked in, and the depth read above is the depth of that stop for
+            // the task the step binds to. For a step that reaches a free-running thread the depth
+            // it binds to (the last one REPORTED by the current task, possibly in an earlier cycle)
+            // cannot be observed through the public API (thorough tier, bound 2: ["SO"] issued
+            // between the start of a task activation and its first statement).
+            let still_in_stop_hook = self.resume_points == Some(points_before);
+            if let (Some(k), true) = (kind, !addressed_elsewhere && still_in_stop_hook && self.sched.points_of(self.ct) == points_before && !self.done()) {
                 self.steps_while_running += 1;
                 self.expect = Some((k.to_string(), origin_depth, None, target_thread));
             }
@@ -440,6 +451,7 @@ pub fn worker_exec(case: &Value) -> Value {
             ref_seq,
             variant,
             steps_while_running: 0,
+            resume_points: None,
             parks_seen: 0,
             resumes_while_parked: 0,
             step_checks: 0,
